@@ -286,7 +286,8 @@ Definition enabled (x : xstate) : list (list N) :=
          (if f_hp y && room then [Poll f (2 * f); Poll f (2 * f + 1)] else []) ++ [DropFut f]
        else map (Create f) reqs) (seq 0 (length (futs s)))
      ++ (if room then map TryAcquire reqs else [])
-     ++ flat_map (fun n => if N.leb (permits s + sumN (rels s) + n) (x_budget x) && N.ltb 0 n
+     (* release(0) included: it must be a no-op *)
+     ++ flat_map (fun n => if N.leb (permits s + sumN (rels s) + n) (x_budget x)
                            then [Release n] else []) reqs
      ++ flat_map (fun i => [Disarm i; DropReleaser i]) (seq 0 (length (rels s)))).
 
